@@ -68,7 +68,7 @@ def setup():
 def batches(tier):
     if tier == "quick":
         return [("clean", 400), ("scripted", 300), ("uniform", 130)]
-    return [("clean", 5000), ("scripted", 4000), ("uniform", 1500)]
+    return [("clean", 12000), ("scripted", 9000), ("uniform", 4000)]
 
 
 # ----------------------------------------------------------------------------
